@@ -69,6 +69,21 @@ class T:
         self.bytes += size
         return s
 
+    def dup(self):
+        """mi_strdup / mi_strndup of a generated string (the copy is a block of the current default heap)"""
+        s = self.slot()
+        if s is None:
+            return None
+        r = self.r
+        ln = r.choice([0, 1, 7, 8, 15, 16, 100, 1023, 1024, 5000]) if r.random() < 0.6 else r.randrange(0, 3000)
+        if r.random() < 0.5:
+            self.emit("D", s, ln, 0); size = ln + 1
+        else:
+            nmax = r.choice([0, 1, ln, ln + 1, ln // 2, 10000])
+            self.emit("ND", s, ln, nmax); size = min(ln, nmax) + 1
+        self.live[s] = self.cur; self.size_of[s] = size; self.bytes += size
+        return s
+
     def free(self, s=None, mode=None):
         if not self.live:
             return
@@ -93,8 +108,10 @@ class T:
 def g_boundary(t, n):
     for _ in range(n):
         k = t.r.random()
-        if k < 0.6 or not t.live:
+        if k < 0.56 or not t.live:
             t.alloc()
+        elif k < 0.6:
+            t.dup()
         elif k < 0.9:
             t.free()
         elif k < 0.95:
